@@ -594,7 +594,7 @@ def run(r):
               "cfg: valid, invalid and degenerate delimiter sets.  A seg case is non-trivial when it is distinct, delimiter-free and "
               "contains at least one tag")
     r.assumptions = ["byte offsets of the Rust lexer correspond to character positions of the model (UTF-8 self-synchronisation)",
-                     "aho_corasick::find_overlapping reports every occurrence of every pattern ordered by end offset",
+                     "aho_corasick::find_overlapping meets AcSpec (reports exactly the occurrences of the patterns, in the order of their end offsets; order among equal ends free) - a named hypothesis of C10_main, decided by the Lean acSpecB on the real automaton's report for every kac haystack",
                      "identifiers are ASCII (with the unicode feature non-ASCII identifier characters make the model answer 'unsupported')",
                      "delimiters contain no whitespace a rule of the statement could remove (start delimiters do not begin with whitespace, line prefixes and end delimiters do not end in a line break), and variable / block end delimiters do not begin with ASCII whitespace",
                      "sequences longer than those enumerated behave as the induction in lex_eq_spec says (proved for the model)"]
@@ -736,6 +736,31 @@ def check_lines(r, lines, model, verbose=False):
                 r.broken.append(f"Lean findLL differs from the leftmost-longest search in Python on {case}")
             if ml.get("res") != want:
                 r.broken.append(f"the Lean model of the Aho-Corasick path differs from leftmost-longest on {case}")
+            # the assumption about aho_corasick the proof uses (AcSpec: the automaton reports exactly the
+            # occurrences of the patterns, ordered by end offset), decided by the Lean acSpecB on what the
+            # REAL automaton reported on every haystack, and the model of the loop run on the real report
+            if fl.get("ms") not in (None, "-"):
+                r.hist["kac"]["haystacks on which the real automaton's report was checked against AcSpec"] += len(words)
+                if ml.get("acspec") != f"{len(words)}/{len(words)}" or ml.get("maxok") != "1":
+                    r.broken.append(f"the real automaton's report does not meet AcSpec (all occurrences, ordered by end offset; "
+                                    f"max_pattern_len) on {case}: acspec={ml.get('acspec')} first bad haystack (hex) {ml.get('acbad')} "
+                                    f"maxok={ml.get('maxok')}")
+                elif ml.get("acloop") != want:
+                    r.broken.append(f"acLoop over the real automaton's report differs from leftmost-longest although the report meets AcSpec "
+                                    f"(contradicts acLoop_eq_findLL_of_spec) on {case}")
+                # second opinion in Python: the occurrences of the patterns (quick: every 5th set)
+                pats = [d["vs"], d["bs"], d["cs"]] + [x for x in (d["ls"], d["lc"]) if x]
+                second = getattr(r, "tier", "quick") == "thorough" or i % 5 == 0
+                for h, rep in (zip(words, fl["ms"].split(",")) if second else []):
+                    occ = sorted((e, s0, pi) for pi, pt in enumerate(pats) for s0 in range(len(h) - len(pt) + 1)
+                                 for e in [s0 + len(pt)] if h.startswith(pt, s0))
+                    real = [(int(rep[k + 1], 36), int(rep[k], 36), int(rep[k + 2], 36)) for k in range(0, len(rep), 3)]
+                    if sorted(real) != occ or [x[0] for x in real] != sorted(x[0] for x in real):
+                        r.broken.append(f"find_overlapping on {h!r} with patterns {pats!r} reported (end, start, pattern) {real!r}; "
+                                        f"the occurrences are {occ!r}")
+                        break
+            elif fl.get("ms") == "-":
+                r.broken.append(f"no automaton for the custom delimiter set of {case}")
             got = fl.get("res", "")
             if got != want:
                 bad = next((k for k in range(len(words)) if got[3 * k:3 * k + 3] != want[3 * k:3 * k + 3]), 0)
